@@ -22,6 +22,7 @@ pub fn run(ctx: &mut Ctx) {
     if part.is_empty() || part == "widths" { widths(ctx); }
     if part.is_empty() || part == "extremes" { extremes(ctx); }
     if part.is_empty() || part == "selzero" { selzero(ctx); }
+    if part.is_empty() || part == "large" { large(ctx); }
 }
 
 pub fn ser<T: Serialize>(x: &T) -> Vec<u8> {
@@ -252,6 +253,37 @@ fn extremes(ctx: &mut Ctx) {
                 }
             }
         }
+    }
+}
+
+// Large clustered vectors: the embedded high bitvector gets dense superblocks followed by a long one (and vice versa).
+fn large(ctx: &mut Ctx) {
+    if cfg!(miri) { return; }
+    let opts = QOpts { iter_limit: 0, ..QOpts::default() };
+    let cases = ctx.size(4, 24);
+    for c in 0..cases {
+        if !ctx.mine(c as u64) { continue; }
+        if !ctx.begin_case() { continue; }
+        let mut rng = ctx.rng(0xC2_B000 + c as u64);
+        let cluster = 140_000 + rng.below(60_000);
+        let n: usize = 1usize << (34 + rng.below(8));
+        let mut pos: Vec<usize> = Vec::with_capacity(2 * cluster + 10);
+        match c % 3 {
+            0 => { for i in 0..cluster { pos.push(i); } for i in 0..cluster { pos.push(n - cluster + i); } },
+            1 => { let start = n / 3; for i in 0..2 * cluster { pos.push(start + i); } for k in 0..5000 { pos.push(start + 2 * cluster + (k + 1) * (n / 3 / 5001)); } },
+            _ => { for k in 0..6000 { pos.push(k * (n / 4 / 6000)); } for i in 0..2 * cluster { pos.push(n / 2 + 2 * i); } },
+        }
+        pos.sort_unstable(); pos.dedup();
+        let m = SetModel::new(n, pos);
+        let w = predict_width(n, m.ones.len());
+        let mut a = sparse_args(&m, w, &mut rng);
+        // Ranks on both sides of every multiple of 4096 in the high bitvector's terms (ones) and around the cluster edges.
+        let mut r = 0; while r < m.ones.len() + 4096 { for d in 0..2usize { a.ranks.push(r.saturating_sub(d)); a.ranks.push(r + d); } r += 4096; }
+        for k in 0..200 { let i = (k * m.ones.len()) / 200; a.idx.push(m.ones[i]); a.idx.push(m.ones[i] + 1); a.ranks.push(i); }
+        let a = a.dedup();
+        let seen = check_sparse(ctx, "set", mk::sparse_set(n, &m.ones), &m, &a, &opts);
+        ctx.case(hash64(&[9, n as u64, m.ones.len() as u64, c as u64]), true);
+        ctx.sample(|| format!("large: n={} m={} (clusters of ~{} consecutive values, shape {}) observed w={:?} idx_args={} rank_args={}", n, m.ones.len(), cluster, c % 3, seen, a.idx.len(), a.ranks.len()));
     }
 }
 
